@@ -174,6 +174,11 @@ def worker(case):
             for sig, what, vals in cands:
                 # recover the concrete action list from the decisions of this path
                 acts = decisions_to_actions(M, gridname, pr.choices, length)
+                if vals is None:
+                    # an index-level disagreement (no solver query of its own): the witness grid is a model of the path
+                    # condition - the path may exist for special grids only (a tolerance in the code, a tiny cell)
+                    _, m = eng.feasible(True)
+                    vals = eng.model_inputs(m) if m is not None else None
                 rp = dict(grid=gridname, length=length, mode=mode, actions=acts, values=vals)
                 ok = replay(rp)
                 res['violations'].append(dict(signature='%s:%s' % (mode, sig), what='%s [grid %s, history %s]' %
